@@ -796,14 +796,22 @@ func quietScan(rec *world.ScanRecord) bool {
 	if rec.FaultHits > 0 || len(rec.FaultsArmed) > 0 || rec.Restarted || rec.View == nil {
 		return false
 	}
-	for _, n := range rec.View.Nodes {
+	twice := func(n *v1.Node) bool {
 		k := 0
 		for _, t := range n.Spec.Taints {
 			if t.Key == ref.TaintKey {
 				k++
 			}
 		}
-		if k > 1 {
+		return k > 1
+	}
+	for _, n := range rec.View.Nodes {
+		if twice(n) {
+			return false
+		}
+	}
+	for _, n := range rec.API { // the cache may lag: what the API server holds is what a write meets
+		if n != nil && twice(n) {
 			return false
 		}
 	}
@@ -877,19 +885,8 @@ func largerDrives(w *world.World, rec *world.ScanRecord) []world.Violation {
 // domain (groups holding malformed objects are judged for crash-freedom only, see world.Expectation).
 func nextScanNormal(w *world.World, rec *world.ScanRecord) []world.Violation {
 	var out []world.Violation
-	if rec.FaultHits > 0 || len(rec.FaultsArmed) > 0 || rec.Restarted {
+	if !quietScan(rec) { // failures, a restart, or the escalator key twice on one node (which one counts is not defined)
 		return nil
-	}
-	for _, n := range rec.View.Nodes { // the escalator key twice on one node: which one counts is not defined
-		k := 0
-		for _, t := range n.Spec.Taints {
-			if t.Key == ref.TaintKey {
-				k++
-			}
-		}
-		if k > 1 {
-			return nil
-		}
 	}
 	for _, v := range w.M06(rec) {
 		if v.Prop == "C06" {
